@@ -284,6 +284,7 @@ def run(ctx, res):
     common.rule_closed_world(ctx, res)
     common.rule_who_admits(ctx, res)
     common.rule_admission_filter(ctx, res)
+    common.rule_find_node_identity(ctx, res)
     rule_response_routing(ctx, res)
     rule_tid_gate(ctx, res, d)
     rule_add_nodes_shape(ctx, res)
